@@ -392,11 +392,12 @@ class Node(object):
         for el in t:
             s = el.symbol
             g(keys, s + ".mass", lambda: el.mass)
+            g(keys, s + "._mass_unc", lambda: el._mass_unc)
             g(keys, s + ".isotopes", lambda: el.isotopes)
             for iso in el:
                 k = "%s[%d]" % (s, iso.isotope)
-                g(keys, k + ".mass", lambda: iso.mass)
-                g(keys, k + ".abundance", lambda: iso.abundance)
+                g(keys, k + ".mass", lambda: [iso.mass, iso._mass_unc])
+                g(keys, k + ".abundance", lambda: [iso.abundance, iso._abundance_unc])
             for q in el.ions[:1] + el.ions[-1:]:
                 g(keys, "%s{%d}.mass" % (s, q), lambda: el.ion[q].mass)
 
